@@ -178,7 +178,7 @@ def getitem(E, obj, idx):
         if not E.spec:
             E.oblige("safe", z3.BoolVal(False), "subscripted value is subscriptable (it is a method)",
                      assume_after=False)
-        raise PyRaise(ExcV(TypeError, ("not subscriptable",)))
+        raise PyRaise(ExcV(TypeError, ("not subscriptable",), {"reported": True}))
     raise Unsupported("subscript of %r (line %d)" % (obj, E.cur_line))
 
 
